@@ -37,6 +37,49 @@ void vm_run_isolated (void (*fn) (long), long idx) {
   }
 }
 
+/* ------------------------------------------------------------------ failure records, de-duplicated across processes
+ * A vx slot holds 48 failure records per batch; a frequent key must not crowd out a rare one, so every key is
+ * recorded at most VM_KEYCAP times per run; the exact totals are kept in shared memory and written next to --out. */
+#include <sys/mman.h>
+#define VM_NKEYS 512
+#define VM_KEYCAP 6
+typedef struct { char key[160]; volatile long n; } vm_keyrec;
+static vm_keyrec *keytab;
+void vm_shared_init (void) {
+  keytab = mmap (0, sizeof (vm_keyrec) * VM_NKEYS, PROT_READ | PROT_WRITE, MAP_SHARED | MAP_ANONYMOUS, -1, 0);
+  if (keytab == MAP_FAILED) { perror ("mmap"); exit (2); }
+}
+void vm_fail (const char *key, const char *fmt, ...) {
+  char msg[700]; va_list ap;
+  va_start (ap, fmt); vsnprintf (msg, sizeof msg, fmt, ap); va_end (ap);
+  long n = 1;
+  if (keytab && vx_in_child ()) {
+    unsigned h = 2166136261u; for (const char *q = key; *q; q++) h = (h ^ (unsigned char) *q) * 16777619u;
+    for (int probe = 0; probe < VM_NKEYS; probe++) {
+      vm_keyrec *r = &keytab[(h + (unsigned) probe) % VM_NKEYS];
+      if (!r->key[0]) {            /* claim: first byte last */
+        char first = 0;
+        if (__sync_bool_compare_and_swap (&r->key[0], first, key[0])) snprintf (r->key + 1, sizeof r->key - 1, "%s", key + 1);
+      }
+      /* a concurrent claimer may still be writing the tail: wait for the terminator to settle */
+      for (int spin = 0; spin < 1000 && r->key[0] == key[0] && strncmp (r->key, key, sizeof r->key - 1) && !r->key[strlen (key)]; spin++) {}
+      if (!strncmp (r->key, key, sizeof r->key - 1)) { n = __sync_add_and_fetch (&r->n, 1); break; }
+    }
+  }
+  if (n <= VM_KEYCAP || vx_replaying ()) vx_fail (key, "%s", msg);
+  else vx_count (15, 1);
+}
+void vm_write_key_totals (const char *path) {
+  if (!keytab || !path) return;
+  FILE *f = fopen (path, "w");
+  if (!f) return;
+  fputs ("{", f);
+  int first = 1;
+  for (int i = 0; i < VM_NKEYS; i++) if (keytab[i].key[0]) { fprintf (f, "%s\"%s\": %ld", first ? "" : ", ", keytab[i].key, keytab[i].n); first = 0; }
+  fputs ("}\n", f);
+  fclose (f);
+}
+
 /* ------------------------------------------------------------------ snapshot */
 void vm_snap_take (vm_snap *s) {
   s->sp = sp; s->fp = fp; s->csp = csp; s->pc = pc;
@@ -54,7 +97,7 @@ unsigned vm_ignore_fields, vm_changed_fields;
 int vm_snap_diff (const vm_snap *a, const vm_snap *b, int sp_delta, int with_pc, const char *scope, const char *ctx) {
   int n = 0, bit = 0; char key[200];
 #define DIFF(cond, field, fmt, ...) do { unsigned mybit = 1u << bit++; if (cond) { vm_changed_fields |= mybit; if (!(vm_ignore_fields & mybit)) { n++; snprintf (key, sizeof key, "C05:%s-not-restored:%s", field, scope); \
-      vx_fail (key, fmt " [%s]", __VA_ARGS__, ctx); vx_obs ("!! %s", key); } } } while (0)
+      vm_fail (key, fmt " [%s]", __VA_ARGS__, ctx); vx_obs ("!! %s", key); } } } while (0)
   DIFF (b->sp != a->sp + sp_delta, "sp", "value stack pointer is off by %ld slots", (long) (b->sp - (a->sp + sp_delta)));
   DIFF (b->csp != a->csp, "csp", "control stack pointer is off by %ld frames", (long) (b->csp - a->csp));
   DIFF (b->fp != a->fp, "fp", "frame pointer differs by %ld slots", (long) (b->fp - a->fp));
@@ -93,12 +136,13 @@ static char exp_catch[80], exp_driver[80];
 static struct { vm_snap s; const char *resume; int expect; } mon[MAXMON];
 static int nmon;
 
+const char *vm_noinj_name = "no-fault";
 const char *vm_ctx_name (void) {
   switch (vm_fault_ctx) {
   case VM_CTX_CATCH: return "fault-caught";
   case VM_CTX_DRIVER: return "fault-uncaught";
   case VM_CTX_OTHER: return "fault-swallowed-by-safe_apply";
-  default: return "no-fault";
+  default: return vm_noinj_name;
   }
 }
 const char *vm_expected_catch_text (void) { return exp_catch; }
@@ -119,7 +163,7 @@ static void catch_done (int i) {
     const char *got = hx_canon_s (sp);
     vm_expect_done = 1;
     if (strcmp (got, exp_catch)) {
-      vx_fail ("C05:catch:wrong-value", "catch yielded %.200s, expected %s [%s]", got, exp_catch, vm_ctx_desc);
+      vm_fail ("C05:catch:wrong-value", "catch yielded %.200s, expected %s [%s]", got, exp_catch, vm_ctx_desc);
       vx_obs ("!! catch yielded %.200s, expected %s", got, exp_catch);
     }
   }
